@@ -170,11 +170,21 @@ func TestGeneratorRequestsExactlyMissing(t *testing.T) {
 		}()
 		mk := func(ssrc uint32, withNack bool) *bound {
 			info := &interceptor.StreamInfo{SSRC: ssrc}
-			if withNack {
-				info.RTCPFeedback = []interceptor.RTCPFeedback{{Type: "nack"}}
-			} else {
-				info.RTCPFeedback = []interceptor.RTCPFeedback{{Type: "nack", Parameter: "pli"}}
+			// generic NACK is negotiated iff the list has an entry {nack, ""}, wherever it stands among the other feedback types
+			others := []interceptor.RTCPFeedback{{Type: "nack", Parameter: "pli"}, {Type: "ccm", Parameter: "fir"}, {Type: "goog-remb"}, {Type: "transport-cc"}}
+			var fb []interceptor.RTCPFeedback
+			for _, o := range others {
+				if rapid.IntRange(0, 2).Draw(t, "otherFb") == 0 {
+					fb = append(fb, o)
+				}
 			}
+			if withNack {
+				at := rapid.IntRange(0, len(fb)).Draw(t, "nackAt")
+				fb = append(fb[:at:at], append([]interceptor.RTCPFeedback{{Type: "nack"}}, fb[at:]...)...)
+			} else if len(fb) == 0 && rapid.Bool().Draw(t, "onlyPli") {
+				fb = []interceptor.RTCPFeedback{{Type: "nack", Parameter: "pli"}}
+			}
+			info.RTCPFeedback = fb
 			b := &bound{info: info, src: &kit.ByteSource{}, nack: withNack, model: &streamModel{ssrc: ssrc, received: map[int64]bool{}, requests: map[int64]int{}}}
 			b.reader = ic.BindRemoteStream(info, b.src)
 
